@@ -199,7 +199,7 @@ func protectedLine(l string) bool {
 	}
 	if len(f) > 1 {
 		switch f[1] {
-		case "col", "index", "sortindex", "trigger", "dropcol", "dropindex", "droptrigger":
+		case "col", "index", "sortindex", "trigger", "dropcol", "dropindex", "droptrigger", "sparse":
 			return true
 		}
 	}
